@@ -18,8 +18,9 @@ type cand struct {
 	group  string // header | witness | txlist | encoding | control
 	signed string // "orig" (signature untouched), "resigned" (validators signed the changed block), "n/a"
 	blk    *block.Block
-	raw    []byte // encoding-level candidates: the bytes received
-	decErr bool   // bytes do not decode: nothing reaches AddBlock
+	raw    []byte          // encoding-level candidates: the bytes received
+	decErr bool            // bytes do not decode: nothing reaches AddBlock
+	hdrs   []*block.Header // group "headers": the list handed to AddHeaders
 }
 
 type corruptor struct {
@@ -333,5 +334,6 @@ func corruptions(st *state, r *prng.R) []cand {
 	c.witness()
 	c.txlist()
 	c.encoding()
+	c.headerLists()
 	return c.out
 }
